@@ -1204,3 +1204,187 @@ pub fn magic_hellos() -> Vec<W> {
     }
     v
 }
+
+// ---------------------------------------------------------------- text-typed fields
+
+/// Contents for fields that carry text (host names, protocol names): shapes that a
+/// "normalising" decoder or encoder would be tempted to edit (trailing / leading dot, case,
+/// blanks, NUL, non-ASCII, IDN prefix, empty labels, wildcards).
+pub fn text_patterns() -> Vec<Vec<u8>> {
+    let mut v: Vec<Vec<u8>> = [
+        "a.", ".a", ".", "..", "a..b", "A.B", "Www.Example.COM", "www.example.com.", " a", "a ", "a\t", "a\n", "a\r\n", "a\0", "\0", "a\0b", "xn--bcher-kva.example",
+        "*.example.com", "*", "h2", "H2", "http/1.1", "HTTP/1.1", "localhost", "127.0.0.1", "[::1]", "a,b", "a;b", "a/b", "a\\b", "\"a\"", "%41", "a%00",
+    ]
+    .iter()
+    .map(|s| s.as_bytes().to_vec())
+    .collect();
+    v.push("b\u{fc}cher.example".as_bytes().to_vec());
+    v.push(vec![0xef, 0xbb, 0xbf, b'a']);
+    v.push(vec![b'a', 0x80]);
+    v.push(vec![0xff, 0xfe]);
+    v
+}
+
+/// SNI and ALPN extensions whose names are the text patterns.
+pub fn text_extensions() -> Vec<W> {
+    let mut v = Vec::new();
+    for t in text_patterns() {
+        v.push(ext(0, |w| {
+            w.block(2, "sni_list_len", |w| {
+                w.u8(0);
+                w.block(2, "sni_name_len", |w| {
+                    w.bytes(&t);
+                });
+            });
+        }));
+        if t.len() <= 255 {
+            v.push(ext(16, |w| {
+                w.block(2, "alpn_list_len", |w| {
+                    w.block(1, "proto_len", |w| {
+                        w.bytes(&t);
+                    });
+                    w.block(1, "proto_len", |w| {
+                        w.bytes(b"x");
+                    });
+                });
+            }));
+        }
+    }
+    v
+}
+
+// ---------------------------------------------------------------- other protocols' first bytes
+
+/// Byte strings that real traffic puts where a TLS / DTLS record is expected: SSLv2-compatible
+/// ClientHellos (RFC 5246 appendix E.2) in all their length shapes, and the openings of a few
+/// other protocols. Each is padded so that, read as a TLS record, its declared length is present.
+pub fn foreign_protocols() -> Vec<Vec<u8>> {
+    let mut v: Vec<Vec<u8>> = Vec::new();
+    // SSLv2 ClientHello: 2-byte record length (high bit set), msg type 1, version, three u16 lengths, data
+    for version in [0x0002u16, 0x0300, 0x0301, 0x0302, 0x0303] {
+        for cipher_specs in [3usize, 6, 9, 27, 30, 300] {
+            for sid in [0usize, 16] {
+                for challenge in [16usize, 24, 32] {
+                    let body_len = 9 + cipher_specs + sid + challenge;
+                    let mut b = vec![0x80 | (body_len >> 8) as u8, body_len as u8, 0x01, (version >> 8) as u8, version as u8];
+                    b.extend((cipher_specs as u16).to_be_bytes());
+                    b.extend((sid as u16).to_be_bytes());
+                    b.extend((challenge as u16).to_be_bytes());
+                    for i in 0..cipher_specs {
+                        b.push([0x00, 0x00, 0x2f][i % 3]);
+                    }
+                    b.extend(std::iter::repeat(0x5a).take(sid + challenge));
+                    // read as a TLS record the declared length is bytes 3..5: make it available
+                    let tls_len = ((b[3] as usize) << 8) | b[4] as usize;
+                    if b.len() < 5 + tls_len + 3 {
+                        b.resize(5 + tls_len + 3, 0xee);
+                    }
+                    v.push(b);
+                }
+            }
+        }
+    }
+    for text in [
+        "GET / HTTP/1.1\r\nHost: a\r\n\r\n", "POST /x HTTP/1.0\r\n\r\n", "HTTP/1.1 400 Bad Request\r\n\r\n", "SSH-2.0-OpenSSH_9.0\r\n", "220 mail ESMTP\r\n",
+        "EHLO a\r\n", "STARTTLS\r\n", "CONNECT a:443 HTTP/1.1\r\n\r\n", "PRI * HTTP/2.0\r\n\r\nSM\r\n\r\n", "\u{16}\u{3}\u{1}",
+    ] {
+        let mut b = text.as_bytes().to_vec();
+        b.resize(b.len().max(8) + 70000, 0x20);
+        v.push(b);
+    }
+    v
+}
+
+// ---------------------------------------------------------------- hellos with real extension lists
+
+/// Extension blocks that are well-formed extension lists: every known extension alone, and pairs.
+pub fn extension_blocks() -> Vec<Vec<u8>> {
+    let exts: Vec<Vec<u8>> = known_extensions().into_iter().filter(|w| w.buf.len() < 300).map(|w| w.buf).collect();
+    let mut blocks: Vec<Vec<u8>> = exts.clone();
+    for a in exts.iter().step_by(7) {
+        for b in exts.iter().step_by(11) {
+            let mut x = a.clone();
+            x.extend_from_slice(b);
+            blocks.push(x);
+        }
+    }
+    // the TLS 1.3 ServerHello / HelloRetryRequest shapes
+    blocks.push(vec![0x00, 0x2b, 0x00, 0x02, 0x03, 0x04]);
+    blocks.push(vec![0x00, 0x2b, 0x00, 0x02, 0x03, 0x04, 0x00, 0x33, 0x00, 0x02, 0x00, 0x1d]);
+    blocks.push(vec![0x00, 0x33, 0x00, 0x02, 0x00, 0x1d, 0x00, 0x2b, 0x00, 0x02, 0x7f, 0x1c]);
+    blocks.push(vec![0x00, 0x2b, 0x00, 0x03, 0x02, 0x03, 0x04]);
+    blocks
+}
+
+/// ClientHello / ServerHello (every version form) / HelloRetryRequest / DTLS hellos whose extension
+/// block is one of `extension_blocks()`.
+pub fn hellos_with_extension_lists() -> Vec<W> {
+    let mut v = Vec::new();
+    for (i, block) in extension_blocks().iter().enumerate() {
+        let sid = if i % 2 == 0 { 0 } else { 32 };
+        for version in [0x0301u16, 0x0303] {
+            v.push(hs(2, |w| {
+                w.u16(version);
+                fill(w, 32, 0x20);
+                w.block(1, "sid_len", |w| fill(w, sid, 9));
+                w.u16(0x1301).u8(0);
+                w.block(2, "ext_len", |w| {
+                    w.bytes(block);
+                });
+            }));
+        }
+        v.push(hs(2, |w| {
+            w.u16(0x7f12);
+            fill(w, 32, 0x20);
+            w.u16(0x1301);
+            w.block(2, "ext_len", |w| {
+                w.bytes(block);
+            });
+        }));
+        v.push(hs(1, |w| {
+            w.u16(0x0303);
+            fill(w, 32, 0x40);
+            w.block(1, "sid_len", |w| fill(w, sid, 7));
+            w.block(2, "ciphers_len", |w| {
+                w.u16(0x1301);
+            });
+            w.block(1, "comp_len", |w| {
+                w.u8(0);
+            });
+            w.block(2, "ext_len", |w| {
+                w.bytes(block);
+            });
+        }));
+        v.push(hs(6, |w| {
+            w.u16(0x0304).u16(0x1301);
+            w.block(2, "ext_len", |w| {
+                w.bytes(block);
+            });
+        }));
+        v.push(dtls_hs(2, 1, None, 0, |w| {
+            w.u16(0xfefd);
+            fill(w, 32, 0x20);
+            w.block(1, "sid_len", |w| fill(w, sid, 9));
+            w.u16(0xc02f).u8(0);
+            w.block(2, "ext_len", |w| {
+                w.bytes(block);
+            });
+        }));
+        v.push(dtls_hs(1, 0, None, 0, |w| {
+            w.u16(0xfefd);
+            fill(w, 32, 0x40);
+            w.block(1, "sid_len", |w| fill(w, sid, 7));
+            w.block(1, "cookie_len", |w| fill(w, 3, 0xc0));
+            w.block(2, "ciphers_len", |w| {
+                w.u16(0xc02f);
+            });
+            w.block(1, "comp_len", |w| {
+                w.u8(0);
+            });
+            w.block(2, "ext_len", |w| {
+                w.bytes(block);
+            });
+        }));
+    }
+    v
+}
